@@ -104,7 +104,7 @@ structure St where
 /-- name handed out by `tempfile` -/
 def tmpName (n : Nat) : String := "t" ++ toString n
 
-def under (d q : String) : Bool := (d ++ "/").isPrefixOf q
+def under (d q : String) : Bool := (d.toList ++ ['/']).isPrefixOf q.toList
 
 /-- `TemporaryDirectory.cleanup()` = `shutil.rmtree(d)` -/
 def rmTmpDir (tmp : FS TNode) (d : String) : FS TNode :=
